@@ -131,7 +131,20 @@ def run_impl(case):
     def bad(x):
         return -1 if x == BAD else x
 
-    for op in case["ops"]:
+    # usage variation (own random stream): the scope objects are prepared up front — `ch = b.Cluster("ch")`,
+    # `idx = [b.Index(i) for i in …]` — and entered later, possibly inside other scopes
+    prepared = {}
+    if lib.rng_for(case.get("seed", 0), case.get("idx", 0), 1751).random() < 0.3:
+        stats["prepared_scopes"] = 1
+        for n_, op_ in enumerate(case["ops"]):
+            try:
+                if op_[0] == "cluster":
+                    prepared[n_] = b.Cluster("" if op_[1] == BAD else op_[1])
+                elif op_[0] == "index":
+                    prepared[n_] = b.Index(-1 if op_[1] == BAD else op_[1])
+            except (ValueError, TypeError) as ex_:
+                prepared[n_] = ex_
+    for opn, op in enumerate(case["ops"]):
         stats["ops"] += 1
         k = op[0]
         if k == "add":
@@ -173,7 +186,9 @@ def run_impl(case):
         elif k == "cluster":
             lines.append(f"cluster {op[1]}")
             try:
-                cm = b.Cluster("" if op[1] == BAD else op[1])
+                cm = prepared.get(opn) or b.Cluster("" if op[1] == BAD else op[1])
+                if isinstance(cm, Exception):
+                    raise cm
                 cm.__enter__()
                 stack.append(cm); scope.append(op[1]); obs.append("ok"); stats["scoped"] += 1
             except (ValueError, TypeError):
@@ -181,7 +196,9 @@ def run_impl(case):
         elif k == "index":
             lines.append(f"index {op[1]}")
             try:
-                cm = b.Index(-1 if op[1] == BAD else op[1])
+                cm = prepared.get(opn) or b.Index(-1 if op[1] == BAD else op[1])
+                if isinstance(cm, Exception):
+                    raise cm
                 cm.__enter__()
                 stack.append(cm); scope.append(op[1]); obs.append("ok"); stats["scoped"] += 1
             except (ValueError, TypeError):
